@@ -212,14 +212,35 @@ fn render(spec: &DocSpec, self_as: &str, singleton_controller_array: bool, with_
     doc.insert("alsoKnownAs".into(), json!(spec.also_known_as));
   }
   for (scope, name) in SCOPES.iter().enumerate() {
-    let mut entries: Vec<Value> = Vec::new();
-    // embedded methods and references are interleaved in specification order: methods first, then references
-    for m in spec.methods.iter().filter(|m| m.scope as usize == scope) {
-      entries.push(render_method(m, &did_at));
-    }
-    for r in spec.refs.iter().filter(|r| r.rel as usize == scope) {
-      entries.push(json!(format!("{}{}", did_at(r.did), r.url)));
-    }
+    // Embedded methods and references of one relationship in an order that depends on the relationship: methods
+    // first, references first, or alternating (the order of a relationship's entries is part of the document).
+    let embedded: Vec<Value> = spec
+      .methods
+      .iter()
+      .filter(|m| m.scope as usize == scope)
+      .map(|m| render_method(m, &did_at))
+      .collect();
+    let referred: Vec<Value> = spec
+      .refs
+      .iter()
+      .filter(|r| r.rel as usize == scope)
+      .map(|r| json!(format!("{}{}", did_at(r.did), r.url)))
+      .collect();
+    let entries: Vec<Value> = match scope % 3 {
+      0 => embedded.into_iter().chain(referred).collect(),
+      1 => referred.into_iter().chain(embedded).collect(),
+      _ => {
+        let (mut a, mut b) = (embedded.into_iter(), referred.into_iter());
+        let mut out = Vec::new();
+        loop {
+          match (b.next(), a.next()) {
+            (None, None) => break,
+            (x, y) => out.extend(x.into_iter().chain(y)),
+          }
+        }
+        out
+      }
+    };
     if !entries.is_empty() {
       doc.insert((*name).into(), Value::Array(entries));
     }
@@ -517,6 +538,13 @@ fn pack_and_check_header(doc: &IotaDocument, obs: &mut Obs) -> Result<Option<Vec
   Ok(Some(packed))
 }
 
+/// The document with its two ledger address fields blanked ("ledger address fields excepted").
+fn without_addresses(mut d: IotaDocument) -> IotaDocument {
+  d.metadata.governor_address = None;
+  d.metadata.state_controller_address = None;
+  d
+}
+
 /// Compare the document obtained for `target` with the harness rendering for that DID.
 /// `Ok(true)` = equal; `Ok(false)` = differs only by a tolerated known finding; `Err` = violation.
 fn compare_with_rendering(
@@ -531,6 +559,8 @@ fn compare_with_rendering(
     IotaDocument::from_json(&expected_json.to_string()),
     "from_json of the rendering for the target DID"
   );
+  // the two ledger address fields are excepted from the statement: whatever they hold is not compared
+  let got = &without_addresses(got.clone());
   if *got == expected {
     return Ok(true);
   }
@@ -621,9 +651,8 @@ fn check_doc(spec: &DocSpec, target: &str, obs: &mut Obs) -> CheckResult {
     Err(p) => vfail!(obs, "into-iota-document-panics", "into_iota_document(self) panicked: {}", p.msg),
     Ok(Err(e)) => vfail!(obs, "same-did-unpack-fails", "into_iota_document(self) failed: {e}"),
     Ok(Ok(back)) => {
-      let mut cleared = doc.clone();
-      cleared.metadata.governor_address = None;
-      cleared.metadata.state_controller_address = None;
+      let cleared = without_addresses(doc.clone());
+      let back = without_addresses(back);
       if back == cleared {
         obs.label("same-did-equal");
       } else if compare_with_rendering(spec, self_did, &back, "same-did", obs)? {
@@ -755,13 +784,14 @@ fn check_oversize(total: u32, where_: u8, obs: &mut Obs) -> CheckResult {
         packed.len(),
         &packed[5..7.min(packed.len())]
       );
-      vensure!(
-        obs,
-        packed.len() == HEADER_LEN + total,
-        "oversize-size-model",
-        "harness size model is off: expected body of {total} bytes, got {} (harness bug or non-compact JSON)",
-        packed.len() - HEADER_LEN
-      );
+      if packed.len() != HEADER_LEN + total {
+        // the size the harness computed for the body is not the size the library wrote: nothing can be said about
+        // the boundary from this case
+        return Err(Viol::fixture(format!(
+          "harness size model is off: expected body of {total} bytes, got {}",
+          packed.len() - HEADER_LEN
+        )));
+      }
       let unpacked = match unpack_caught(&packed, obs)? {
         Ok(u) => u,
         Err(e) => return obs.fail("unpack-own-output-fails", format!("unpack(pack(d)) failed for a {total}-byte body: {e}")),
@@ -769,9 +799,8 @@ fn check_oversize(total: u32, where_: u8, obs: &mut Obs) -> CheckResult {
       let me = fixture!(IotaDID::parse(&spec.dids[0]), "IotaDID::parse(self)");
       match unpacked.into_iota_document(&me) {
         Ok(back) => {
-          let mut cleared = doc;
-          cleared.metadata.governor_address = None;
-          cleared.metadata.state_controller_address = None;
+          let cleared = without_addresses(doc);
+          let back = without_addresses(back);
           vensure!(obs, back == cleared, "same-did-mismatch:large-document", "a {total}-byte document does not round-trip");
         }
         Err(e) => vfail!(obs, "same-did-unpack-fails", "into_iota_document(self) failed for a {total}-byte body: {e}"),
